@@ -113,7 +113,7 @@ def gen_case(rng: random.Random):
     elif k == "allometry":
         c["hist"] = gen_hist(rng, c["params"] or PARAMS, pnone=0.25)
     elif k == "error":
-        c["hist"] = gen_hist(rng, ["F"], pnone=0.6, maxlen=2)
+        c["hist"] = gen_hist(rng, ["F"], pnone=0.6, maxlen=2, exclude=("piecewise",))   # has_proportional_error_model takes any piecewise for IPREDADJ (AttributeError), see notes
     return c
 
 
